@@ -167,6 +167,9 @@ func init() {
 				cfg.Directed = "repeatDraw"
 			case 1:
 				cfg.Directed = "repeatDest"
+				if i%12 == 7 {
+					cfg.Directed = "remainingFirst"
+				}
 			case 4:
 				if i%12 == 4 {
 					cfg.Directed = "repeatDraw"
